@@ -69,6 +69,8 @@ def initial_tables(inst, tier):
     out.append({"streams": sets[1], "form": "cascade+gcc"})
     out.append({"streams": sets[2], "form": "cascade+gcc"})
     out.append({"streams": sets[1], "form": "all-H"})
+    out.append({"streams": sets[0], "form": "reordered"})               # every column, in another column order
+    out.append({"streams": sets[1], "form": "filled-after-insert"})     # columns populated element by element AFTER an earlier insertion
     out.append({"streams": sets[0], "form": "nan:T+H_net"})
     out.append({"streams": sets[1], "form": "nan:T+composites"})
     if tier == "thorough":
@@ -82,6 +84,22 @@ def build(desc):
     PT = m["PT"]
     hot, cold = _collections([tuple(s) for s in desc["streams"]])
     form = desc["form"]
+    if form == "reordered":
+        pt = m["create_problem_table_with_t_int"](hot + cold, True)
+        m["problem_table_algorithm"](pt, hot, cold)
+        cols = list(pt.columns)
+        first = [PT.T.value, PT.H_HOT.value, PT.H_COLD.value, PT.H_NET.value]
+        return pt[first + [c for c in reversed(cols) if c not in first]]
+    if form == "filled-after-insert":
+        full = m["create_problem_table_with_t_int"](hot + cold, True)
+        m["problem_table_algorithm"](full, hot, cold)
+        T0 = full.col[PT.T.value].tolist()
+        pt = m["ProblemTable"]({PT.T.value: T0, PT.H_NET.value: full.col[PT.H_NET.value].tolist()})
+        pt.insert_temperature_interval([T0[0] + 7.0, T0[-1] - 7.0])          # whatever the class remembers about its columns, it remembers now
+        for name in (PT.H_HOT.value, PT.H_COLD.value, PT.H_NET_NP.value):
+            for i in range(len(pt)):
+                pt.loc[i, name] = float((i * 7 + len(name)) % 5)          # filled one element at a time, as code outside the class would
+        return pt
     if form == "pta" or form.startswith("nan:") or form == "all-H":
         pt = m["create_problem_table_with_t_int"](hot + cold, True)
         m["problem_table_algorithm"](pt, hot, cold)
